@@ -667,3 +667,69 @@ func c20RenderFile(res *Result) {
 		}
 	}
 }
+
+// liveGlobals: Globals changed after a template was first executed are what the next execution sees;
+// a nested Context in Globals is not written to by an execution
+func liveGlobals(res *Result, proj, sig string) {
+	set := pongo2.NewSet("live", &memLoader{files: map[string]string{}})
+	set.Globals["g"] = "one"
+	set.Globals["site"] = pongo2.Context{"name": "shop"}
+	tpl := mustCompile(set, "{{ g }}|{{ late }}|{{ site.name }}/{{ site.user }}")
+	step := func(label string, ctx pongo2.Context, want string) {
+		res.Cases++
+		if r := execOnce(tpl, ctx); r.out != want {
+			oracleFail(res, proj, sig, label, r.String(), want)
+		}
+	}
+	step("Globals{g: one, site: {name: shop}}", nil, "one||shop/")
+	set.Globals["g"] = "two"
+	set.Globals["late"] = "L"
+	step("after Globals[g]=two, Globals[late]=L on a template executed before", nil, "two|L|shop/")
+	step("context {g: c} over the globals", pongo2.Context{"g": "c"}, "c|L|shop/")
+	step("context {site: {user: alice}}: a context entry replaces the global of the same name", pongo2.Context{"site": pongo2.Context{"user": "alice"}}, "two|L|/alice")
+	step("the next execution without context", nil, "two|L|shop/")
+	res.Cases++
+	if site, _ := set.Globals["site"].(pongo2.Context); len(site) != 1 || site["name"] != "shop" {
+		oracleFail(res, proj, sig, "Globals[site] after executions whose context carried its own site", fmt.Sprint(set.Globals["site"]), "map[name:shop]")
+	}
+	delete(set.Globals, "late")
+	step("after delete(Globals, late)", nil, "two||shop/")
+}
+
+// c05ColdTypes: the first renderings of values of many types, all at the same moment
+func c05ColdTypes(res *Result) {
+	tm := time.Date(2020, 1, 2, 3, 4, 5, 0, time.UTC)
+	ctx := func() pongo2.Context {
+		return pongo2.Context{"a": SString("x"), "b": SInt(3), "c": NStr("n"), "d": NInt(4), "e": VS1{A: 1}, "f": &ptrStringer{text: "p"}, "g": byLen{"q"}, "h": namedUintptr(5),
+			"i": tm, "j": []NStr{"r"}, "k": map[SString]SInt{"s": 1}, "l": psHolder{}, "m": int8(1), "n": float32(1.5), "o": []any{SString("y"), NInt(2)}, "p": textNode("t")}
+	}
+	const src = "{{ a }}{{ b }}{{ c }}{{ d }}{{ e }}{{ f }}{{ g }}{{ h }}{{ i }}{{ j }}{{ k }}{{ l }}{{ m }}{{ n }}{{ o }}{{ p }}{% for x in o %}{{ x }}{% endfor %}"
+	want := "" // the reference is rendered after the first concurrent round: nothing has printed these types before it
+	for rep := 0; rep < 4; rep++ {
+		tpl := mustCompile(pongo2.NewSet("cold-types", &memLoader{files: map[string]string{}}), src)
+		const k = 16
+		outs := make([]string, k)
+		start := make(chan struct{})
+		var wg sync.WaitGroup
+		for j := 0; j < k; j++ {
+			wg.Add(1)
+			go func(j int) {
+				defer wg.Done()
+				<-start
+				outs[j] = execOnce(tpl, ctx()).String()
+			}(j)
+		}
+		close(start)
+		wg.Wait()
+		res.Cases += k
+		if want == "" {
+			want = execOnce(mustCompile(pongo2.NewSet("cold-types-ref", &memLoader{files: map[string]string{}}), src), ctx()).String()
+		}
+		for j, o := range outs {
+			if o != want {
+				oracleFail(res, "race", "c05-cold-types", fmt.Sprintf("goroutine %d of %d printing values of sixteen types at the same moment", j, k), o, want+" (alone)")
+				break
+			}
+		}
+	}
+}
